@@ -274,7 +274,6 @@ def c06(ctx):
         core.cdrv_big(ctx, "huge/finalize-2^33", "asm", "finalize", 1 << 33)
         core.cdrv_big(ctx, "huge/update-2^32+1025", "int", "update", (1 << 32) + 1025)
         core.cdrv_big(ctx, "huge/update-2^33+2^31+5", "asm", "update", (1 << 33) + (1 << 31) + 5)
-        core.cdrv_big(ctx, "huge/update-2^34", "int", "update", 1 << 34)
 
 
 def c07(ctx):
